@@ -148,7 +148,7 @@ theorem has_set_mono (d : PDict Int Node) (k k' : Int) (n : Node) (h : d.has k' 
 
 theorem keysGrow_stepRel (m : Msg) : StepRel KeysGrow m where
   pre := keysGrow_preO
-  write := fun line => Rel.transportWrite (fun _ _ h => h) line
+  write := fun _ _ => Rel.transportWrite (fun _ _ h => h) _
   setNode := fun n => Rel.modifySt _ fun s k hk => has_set_mono _ _ _ _ hk
   alloc := Rel.modifySt _ fun s k hk => has_set_mono _ _ _ _ hk
   erase := fun _ _ _ => nodes_same fun s => by split <;> rfl
@@ -163,7 +163,7 @@ theorem keys_monotone_recv (env : Env) (line : Str) (w : W) (k : Int) (h : w.st.
 
 theorem keys_monotone_send (obj : Option Msg) (b : Bool) (w : W) (k : Int) (h : w.st.nodes.has k = true) :
     (apiSend obj b w).2.st.nodes.has k = true :=
-  (rel_apiSend (keysGrow_stepRel default) (fun _ _ => nodes_same fun _ => rfl) obj b).step w k h
+  (rel_apiSend keysGrow_preO (fun _ => Rel.transportWrite (fun _ _ h => h) _) (fun _ _ => nodes_same fun _ => rfl) obj b).step w k h
 
 theorem keys_monotone_history (ops : List Op) (st : St) (k : Int) (h : st.nodes.has k = true) :
     (stateAfter st ops).nodes.has k = true := by
